@@ -641,6 +641,8 @@ class OpsMixin:
                     if low == 0:
                         return self.wrap_int(other % (1 << width))
                     return self.wrap_int(((other / (1 << low)) % (1 << width)) * (1 << low))
+            if mask is not None and mask < 0 and _pow2_exp(-mask) is not None:
+                return self.wrap_int(other - other % (-mask))  # x & -(2^k) clears the k low bits
             raise Unsupported(f"& with non-contiguous or symbolic mask in math-int mode (line {self.lineno})")
         if op in ("BitOr", "BitXor") and not (cb is not None and _pow2_exp(cb) is not None) and not (ca is not None and _pow2_exp(ca) is not None):
             # x | y == x ^ y == x + y when the operands occupy disjoint bit ranges: find k with
